@@ -79,6 +79,16 @@ CHECKS = {
     note="Assumed: A7 re.fullmatch(p, s) is None iff s is not in L(p); A6 str.split() only through its length; clean_input is a TRUSTED contract in the proof (string solvers cannot decide its replace chains) "
          "and is decided only by the bounded enumeration. StringGrader.__call__ (empty expect in accept-any modes) is bounded-only.",
     design="6/C18"),
+ 'C12': dict(
+    technique="contract-based deductive verification (pyvc on the real interval samplers, numpy's random source under an assumed contract); bounded draws over the option grids as stand-in for the numpy-heavy samplers",
+    text="Proved for all configurations the schema admits: RealInterval/IntegerRange.__init__ leave start <= stop whatever the order given; RealInterval.gen_sample returns a number in "
+         "[start, stop] and IntegerRange.gen_sample an int in [start, stop] (randint is called with high = stop + 1 > low: callee precondition). "
+         "Bounded (not proved): endpoints attainable, complex rectangles/sectors, discrete sets, function lists, random functions (arity, output dimension, |f - center| <= amplitude -- "
+         "this failed for input_dim > 1 before fix: commit f479062 -- fixed once drawn), array samplers (shape, realness, norm range, triangular), all 214 accepted SquareMatrices combinations "
+         "(symmetry, tracelessness, determinant to numerical precision), identity multiples.",
+    note="Assumed: A8/A12 np.random.random_sample() in [0,1), randint(low, high) in [low, high); A10 the NumberRange schema leaves numeric start/stop; A1 reals. Everything that is numpy linear "
+         "algebra (apply_symmetry, normalize, make_det_one/zero, RandomFunction's closure) is outside the value model of the verifier: bounded tier only. Orthogonal/unitary samplers need scipy (absent).",
+    design="6/C12"),
 }
 
 NOT_YET = {}
